@@ -186,6 +186,11 @@ impl MutableArchive {
     /// This method checks the modified state first, then falls back to the original archive.
     /// This ensures that renamed files can still be read correctly.
     pub fn read_file(&mut self, name: &str) -> Result<Vec<u8>> {
+        // The read-only view only knows the flushed state
+        if self.dirty {
+            self.flush()?;
+        }
+
         // Try to read using the current modified state first
         match self.read_current_file(name) {
             Ok(data) => Ok(data),
@@ -537,6 +542,31 @@ impl MutableArchive {
         // Get the block index from the old entry
         let block_index = old_entry.block_index;
         let locale = old_entry.locale;
+
+        // The encryption key derives from the file name: an encrypted file has to be
+        // stored again under the new name instead of re-pointing its block
+        let old_block = self
+            .block_table
+            .as_ref()
+            .and_then(|t| t.entries().get(block_index as usize).copied());
+        if let Some(block) = old_block
+            && block.is_encrypted()
+        {
+            let data = self.read_file(&old_name)?;
+            let mut options = AddFileOptions::new()
+                .compression(if block.is_compressed() {
+                    CompressionMethod::Zlib
+                } else {
+                    CompressionMethod::None
+                })
+                .encrypt()
+                .locale(locale);
+            if block.has_fix_key() {
+                options = options.fix_key();
+            }
+            self.add_file_data(&data, &new_name, options)?;
+            return self.remove_file(&old_name);
+        }
 
         // Remove old hash entry
         if let Some(hash_table) = &mut self.hash_table {
